@@ -439,7 +439,23 @@ class Scenario:
 
     # ------------------------------------------------------------------ observers
     def blame(self, f, repo=None, extra=()):
-        p = self.w.ga("blame", "--json", *extra, ("./" + f) if f.startswith("-") else f, cwd=repo)
+        ctx = getattr(self, "blame_ctx", None)
+        if ctx and repo is None:
+            # invocation context (C12): git-ai blame started from a sub-directory with a relative path, or from elsewhere with an absolute one
+            base = self.w.repo
+            if ctx == "subdir":
+                sd = getattr(self.w, "subdir", ".")
+                cwd = os.path.join(base, sd)
+                arg = os.path.relpath(os.path.join(base, f), cwd)
+                if not arg.startswith(".") and self.rng.random() < 0.5:
+                    arg = "./" + arg
+            else:
+                cwd = self.w.root
+                arg = os.path.join(base, f)
+            p = self.w.ga("blame", "--json", *extra, arg, cwd=cwd)
+            self.stats["blame_from_" + ctx] += 1
+        else:
+            p = self.w.ga("blame", "--json", *extra, ("./" + f) if f.startswith("-") else f, cwd=repo)
         if p.rc != 0:
             return None
         try:
